@@ -77,14 +77,14 @@ func init() {
 		Harnesses: []*HarnessSpec{
 			c11("H_C11_ids", "NewVectorNode / NewMetadataNode from two goroutines (2 ids each), <=3 pre-emptions at the atomic operations: all ids distinct and non-zero", "ran"),
 			c11("H_C11_meta", "metadata index: Add||search, Remove||search, Add||Add; <=2 pre-emptions; + lockset analysis", "ran"),
-			c11("H_C11_flat", "all 5 vector kinds (+ lockset analysis over the two threads), 2 resident vectors: Add||search, Remove||search, Remove||Remove (exactly one succeeds), Flush||search, Add||Flush; <=2 pre-emptions: no error, visibility rule, results well-formed, state after quiescence", "ran"),
+			c11("H_C11_flat", "all 5 vector kinds (+ lockset analysis over the two threads), 2 resident vectors: Add||search, Remove||search, Remove||Remove (exactly one succeeds), Flush||search, Add||Flush, Add||find-similar search (WithNode); <=2 pre-emptions; sync.RWMutex modelled with writer preference (a blocked Lock excludes new readers), deadlocks reported: no error, visibility rule, results well-formed, state after quiescence", "ran"),
 			c11("H_C11_search_search", "5 vector kinds: two concurrent searches with id restrictions on one index and on two indexes (pooled document filters and heaps), <=1 pre-emption: both pass the exact top-k oracle", "ran"),
 			c11("H_C11_search_search_hnsw", "hnsw: the same with <=2 pre-emptions", "ran"),
-			c11("H_C11_text", "BM25: Add||search (heap path), search||search with id restrictions (pooled heaps / filters), Remove||Flush; <=2 pre-emptions", "ran"),
+			c11("H_C11_text", "BM25: Add||search (heap path), search||search with id restrictions (pooled heaps / filters; single-query and two-query searches), Remove||Flush; <=2 pre-emptions", "ran"),
 			c11("H_C11_hybrid", "hybrid: Add||Add (auto ids unique, both visible), AddWithID||Remove, AddWithID||search; <=2 pre-emptions", "ran"),
 			c11("H_C11_store_add", "store with one-document memtables: AddWithID||AddWithID (a rotation falls between choosing the writable memtable and writing to it), <=1 pre-emption + every thread choice at blocking points: no error, all three documents visible", "ran"),
 			c11("H_C11_store_flush", "store: AddWithID||Flush, <=1 pre-emption", "ran"),
-			c11("H_C11_store_close", "store: Close || AddWithID / search / Flush, <=1 pre-emption: Close succeeds, no panic, no deadlock, lock released", "ran"),
+			c11("H_C11_store_close", "store: Close || AddWithID / search / Flush / TriggerCompaction with two segments at threshold 2 (compaction due or in flight), <=1 pre-emption: Close succeeds, no panic, no deadlock, lock released", "ran"),
 		},
 		Bounds:      []string{"lockset (Eraser with read/write lock modes, pool hand-over resets) on every explored schedule of the in-memory index harnesses: a cell written by one harness thread and accessed by the other with no common lock is a violation", "2 goroutines, context switches only at synchronisation operations (Lock/RLock/Unlock, atomics, sync.Pool Get/Put, channel operations, WaitGroup), pre-emption budget 1..3 as stated, plus every choice of the next thread when the running one blocks or ends", "concrete documents"},
 		Outside:     []string{"data races in the sense of the Go memory model / -race (unsynchronised accesses between two sync operations are invisible to this scheduler): NOT decided", "3..16 goroutines, pre-emption inside a critical section beyond the budget", "search || Flush on the store (did not finish: > 40 000 schedules)", "real sync.Pool per-P behaviour (model: LIFO shared pool — adversarial for stale pooled state)", "lockset analysis covers the in-memory indexes only (H_C11_flat / _search_search / _text / _hybrid / _meta): the store hands data over through channels, which Eraser's discipline reports falsely"},
